@@ -12,8 +12,8 @@ S      : accuracy envelope, independent of PyAbel: closed-form Abel pairs (Gauss
          line-of-sight projections (rings, cos² rings as images), every method x documented option x family x size x dr x
          3 rows of different amplitude; the error relative to the peak, away from axis and edge, must stay within 2x the
          value frozen from the repaired pinned tree (harness/baselines/envelopes.json), below GROSS=0.5 anywhere, and must
-         not grow (x1.25 + 2e-6) when the same physical distribution is sampled more finely.
-The envelope itself is a measured quantity (floating point + discretisation), so the level is `partial`: the theorems carry the
+         not grow (x1.25 + 1e-8) when the same physical distribution is sampled more finely.
+The envelope itself is a measured quantity (floating point + discretisation), so the claim is partial: the theorems carry the
 exactness/stability skeleton, the numbers come from S.
 """
 import json
